@@ -10,6 +10,8 @@ echo "| seed | check | exit | invariants reported |" >> $out
 echo "|---|---|---|---|" >> $out
 for id in $ids; do
   c=$(echo $id | cut -c1-3)
+  # changes that the check of ANOTHER property rejects (seeded/<id>/meta.json, field verif.check)
+  case $id in C10d) c=C13;; C02d) c=C12;; C01e) c=C03;; esac
   log=$(mktemp)
   tools/seedtest.sh seeded/$id $c > $log 2>&1
   rc=$(grep -o "rc=[0-9]*" $log | tail -1)
